@@ -628,6 +628,11 @@ def cases(tier, seed):
         add("layers", "%d" % r, n=12)
     for r in range(reps * 4):
         add("sessions", "%d" % r, n=12 if T else 8)
+    for base in ("4.0", "4.1", "5.0", "5.1"):
+        for r in range(reps):
+            add("dshist", "%s/%d" % (base, r), base=base, n=18)
+    for r in range(reps * 3):
+        add("ufodown", "%d" % r, n=10)
     from vmon.gen.c19_gen import NAME_KINDS
     for k in NAME_KINDS:
         for r in range(reps * 2):
